@@ -22,4 +22,5 @@ for d in sorted(glob.glob(os.path.join(root, 'C*'))):
         finally:
             subprocess.run(['git','-C','/repo','checkout','--','.'],check=True)
             subprocess.run(['git','-C','/repo','clean','-fdq'],check=True)
+            subprocess.run(['git','-C','/verif','checkout','--','evidence'],check=False)  # evidence is only committed from runs on the unchanged tree
 for r in rows: print(' | '.join(r))
